@@ -26,10 +26,10 @@ def run(ctx):
     exe = lc.build(ctx)
     # E1 ---------------------------------------------------------------------------------------
     if not lc.SKIP_E1:   # (mutation runs of the dispenso code skip the code-independent model checking)
-        ctx.check_model(lc.SPEC, 'MCParForApi.tla', 'MC_api_inter_thorough.cfg' if thorough else 'MC_api_inter.cfg', WHAT,
-                        label='all interleavings of the body invocations', workers=4, timeout=1500)
-        ctx.check_model(lc.SPEC, 'MCParForApi.tla', 'MC_api_seq_thorough.cfg' if thorough else 'MC_api_seq.cfg', WHAT,
-                        label='overlap-free schedules, wide parameter domain', workers=4, timeout=1500)
+        lc.check_model(ctx, 'MCParForApi.tla', 'MC_api_inter_thorough.cfg' if thorough else 'MC_api_inter.cfg', WHAT,
+                        label='all interleavings of the body invocations')
+        lc.check_model(ctx, 'MCParForApi.tla', 'MC_api_seq_thorough.cfg' if thorough else 'MC_api_seq.cfg', WHAT,
+                        label='overlap-free schedules, wide parameter domain')
         lc.negative_control(ctx, 'MCParForApi.tla', 'MC_api_neg_tail_c14.cfg',
                             'original static no-wait tail on the caller shares states[0] with chunk 0', 'OneBodyPerState')
     # E3/E4 ------------------------------------------------------------------------------------
